@@ -84,6 +84,12 @@ def case_stream(tier: str, seed: int):
     for _ in range(2000 if tier == "thorough" else 100):
         yield "random-cyclic", gg.cyclic_case(r, _kind_cycle(i))
         i += 1
+    # -- update_edges: re-wire a live graph (every 2nd case a real TaskGraph)
+    r = rng.sub("rewire")
+    pool = gg.all_dags(3) + gg.all_dags(4) + dags5
+    for k in range(6000 if tier == "thorough" else 600):
+        yield "rewire", gg.rewire_case(r, r.choice(pool), "task" if k % 2 == 0 else _kind_cycle(i))
+        i += 1
     # -- API histories with remove / re-add / errors
     r = rng.sub("mut")
     for _ in range(3000 if tier == "thorough" else 300):
@@ -201,7 +207,7 @@ def process(chk, col, fam_cases, use_driver, pool):
                 chk.count("topo:" + (t["err"] if isinstance(t, dict) else "ok"))
                 for pn in r["per"]:
                     chk.count("bfs(node):" + (pn["bfs"]["err"] or "ok"))
-            elif op["op"] in ("add_child", "remove"):
+            elif op["op"] in ("add_child", "remove", "update_edges"):
                 chk.count(f"op:{op['op']}:" + (r["err"] if isinstance(r, dict) else "ok"))
         col.oracle(case, verdicts)
         if model is not None:
@@ -278,7 +284,10 @@ def run(chk: common.Check):
         "(all for <= 4 nodes; quick: 1500 sampled, thorough: all 5-node DAGs twice more); an arithmetic slice of the "
         "3 781 503 labelled 6-node DAGs (quick 1500, thorough ~122000; offset from the seed); every digraph with <= 3 "
         "nodes incl. self loops; random DAGs <= 40 nodes (every 10th with parallel edges); random cyclic graphs; "
-        "random API histories with remove/re-add/errors and a query after every mutation.  Node labels rotate over "
+        "random API histories with remove/re-add/update_edges/errors and a query after every mutation; re-wiring "
+        "histories (build, query, update_edges with an edge dropped/reversed/added and keys permuted, query; every "
+        "2nd on a real TaskGraph through TaskGraph.update_edges).  Half of the task/job cases give runtimes and SLOs "
+        "in mixed units (us/ms/s).  Node labels rotate over "
         "int (1-based), int (0 falsy), str ('' falsy), tuple (() falsy), identity-hashed objects, real Task in a real "
         "TaskGraph, real Job in a real JobGraph.  Every query observes all public methods (for <= 6 nodes: every node, "
         "every ordered pair, a node outside the graph).  non-trivial = some query saw >= 2 nodes and >= 1 edge; "
